@@ -37,7 +37,7 @@ def trace_record(tid, case, obs):
     evs = []
     for e in obs['events']:
         evs.append({'e': e['e'], 't': e.get('t', 'w'), 'end': bool(e.get('end', False)), 'ok': bool(e.get('ok', True))})
-    return {'tid': tid, 'outcome': 'error' if obs['err'] else 'ok', 'events': evs, 'streaming': bool(case['expect']['streaming']),
+    return {'tid': tid, 'outcome': 'error' if obs['err'] else 'ok', 'errcls': obs['err']['cls'] if obs['err'] else '', 'events': evs, 'streaming': bool(case['expect']['streaming']),
             'pulllimit': case['expect']['pulllimit'], 'alias': bool(obs['alias']), 'src_changed': bool(obs['src_changed'])}
 
 
@@ -61,11 +61,11 @@ def _replay_chunk(args):
             else:
                 sigs = [dict(s, plain_query=ptext) for s in psigs]
         if opts.get('warnings'):
-            exp_rag = case['expect']['raggedA']
-            got = [r[1:] for r in obs['ragged'] if r[0] == 'input']
-            if obs['err'] is None and case['expect']['fullscan'] and not case['hasHdr']:
-                if (got[0] if got else []) != list(exp_rag):
-                    sigs.append({'impl': 'py', 'what': 'field-count warning', 'got': got, 'want': exp_rag, 'query': qtext})
+            # field-count warnings: the input table's first (if any), then the join table's (both labelled "input" by TableIterator: I3)
+            want = [list(w) for w in (case['expect']['raggedA'], case['expect']['raggedB']) if w]
+            got = [r[1:] for r in obs['ragged']]
+            if obs['err'] is None and case['expect']['fullscan'] and not case['hasHdr'] and got != want:
+                sigs.append({'impl': 'py', 'what': 'field-count warning', 'got': got, 'want': want, 'query': qtext})
         if opts.get('nontrivial_rule') == 'header':
             nontrivial = bool(case['expect']['hashdr']) or bool(case['expect']['err'])
         else:
